@@ -10,12 +10,12 @@
 (* "<cmd>!k"; its effect on the counters is nondeterministic (the command  *)
 (* may or may not have got far enough), the harness follows reality.       *)
 (***************************************************************************)
-EXTENDS Naturals, Sequences, TLC
+EXTENDS Naturals, Sequences, TLC, SequencesExt
 
 CONSTANTS MaxLen,      \* history length
           MaxSnaps,    \* bound on the number of snapshots
           CrashPoints, \* set of k for "!k" variants
-          Family       \* "all" | "keys" | "upgrade" | "copy"
+          Family       \* "all" | "keys" | "upgrade" | "copy" | "copydst" (scripted, enumerated exhaustively)
 
 VARIABLES hist, snaps, ver, nkeys, waste, copied
 
@@ -90,6 +90,42 @@ CopyCrash ==
   /\ \E k \in CrashPoints : Emit("copy!" \o N(k))
   /\ UNCHANGED <<snaps, ver, nkeys, waste, copied>>
 
+\* maintenance of the copy destination between copies: a forgotten snapshot is copied again later
+DstForget ==
+  /\ In({"all", "copy"}) /\ copied
+  /\ \E w \in 0..2 : Emit("dst-forget:" \o N(w))
+  /\ UNCHANGED <<snaps, ver, nkeys, waste, copied>>
+
+DstPrune ==
+  /\ In({"all", "copy"}) /\ copied
+  /\ \E o \in 0..3 : Emit("dst-prune:" \o N(o))
+  /\ UNCHANGED <<snaps, ver, nkeys, waste, copied>>
+
+\* scripted family "copydst" (enumerated exhaustively, not sampled): two backups, a copy (complete or killed),
+\* maintenance of the DESTINATION (forget + prune, or repair index after the killed copy), then two more copies.
+\* The first backup holds no file data, so that after forgetting the second one the destination's data pack is
+\* unused as a whole while its tree pack is still needed.
+\* The destination may then hold trees whose data is gone (prune --max-repack-size 0 keeps the tree pack) or
+\* packs that no index names: copy must still produce a complete, checkable destination.
+CopyDst ==
+  /\ Family = "copydst"
+  /\ LET n == Len(hist) IN
+       \/ n = 0 /\ Emit("backup:9")          \* 9: directories and empty files only
+       \/ n = 1 /\ Emit("backup:1")
+       \/ n = 2 /\ (Emit("copy") \/ \E k \in CrashPoints : Emit("copy!" \o N(k)))
+       \/ n = 3 /\ (IF hist[3] = "copy" THEN \E w \in 0..1 : Emit("dst-forget:" \o N(w)) ELSE Emit("dst-repair-index"))
+       \/ n = 4 /\ (IF hist[3] = "copy" THEN \E o \in {0, 2} : Emit("dst-prune:" \o N(o)) ELSE Emit("copy"))
+       \/ n = 5 /\ Emit("copy")
+  /\ UNCHANGED <<snaps, ver, nkeys, waste, copied>>
+
+Joined(h) == FoldLeft(LAMBDA a, b : IF a = "" THEN b ELSE a \o " " \o b, "", h)
+\* "invariant" of the scripted family: prints every complete history once (BFS run)
+PrintComplete == (Family = "copydst" /\ Len(hist) = 6) => PrintT("HIST " \o Joined(hist))
+
+DstRepairIndex ==
+  /\ In({"copy"}) /\ copied
+  /\ Emit("dst-repair-index") /\ UNCHANGED <<snaps, ver, nkeys, waste, copied>>
+
 RepairIndex ==
   /\ In({"all"}) /\ snaps > 0
   /\ Emit("repair-index") /\ UNCHANGED <<snaps, ver, nkeys, waste, copied>>
@@ -143,10 +179,11 @@ Upgrade ==
 
 Next ==
   /\ Len(hist) < MaxLen
-  /\ \/ Backup \/ BackupCrash \/ Forget \/ ForgetPrune \/ Prune \/ PruneCrash \/ Tag \/ TagCrash
+  /\ \/ CopyDst
+     \/ Backup \/ BackupCrash \/ Forget \/ ForgetPrune \/ Prune \/ PruneCrash \/ Tag \/ TagCrash
      \/ Rewrite \/ RewriteCrash \/ Copy \/ CopyCrash \/ RepairIndex \/ RepairSnapshots
      \/ KeyAdd \/ KeyAddCrash \/ KeyPasswd \/ KeyPasswdCrash \/ KeyRemove \/ KeyRemoveCurrent \/ Upgrade
-     \/ Recover \/ RecoverCrash
+     \/ Recover \/ RecoverCrash \/ DstForget \/ DstPrune \/ DstRepairIndex
 
 Spec == Init /\ [][Next]_vars
 
